@@ -198,6 +198,55 @@ class Formatter:
         cache[path] = (outer, sd[1])
         return cache[path]
 
+    def _reaches_sub(self, path, depth=0):
+        b = self.facts.bodies.get(path)
+        if b is None or "thir" not in b or depth > 3:
+            return False
+        for c in F.exprs(b["thir"], "Call"):
+            fn = c.get("rfn") or c.get("fn") or ""
+            if fn == self.sub_fn["path"] or (fn != path and fn in self.facts.bodies and self.facts.bodies[fn].get("crate") == FMT and self._reaches_sub(fn, depth + 1)):
+                return True
+        return False
+
+    def _dyn_wrapper(self, path):
+        """True when `path` is a formatter function that takes an expression first and hands it to the sub-expression
+        printer, but is not a constant wrapper (the level or side depends on what it is given)."""
+        cache = self.__dict__.setdefault("_dyn_wrappers", {})
+        if path in cache:
+            return cache[path]
+        cache[path] = False
+        b = self.facts.bodies.get(path)
+        if b is None or b.get("crate") != FMT or b is self.sub_fn or "thir" not in b or not b.get("params"):
+            return False
+        if not b["params"][0].get("ty", "").endswith("ast_expressions::Expression") or self._wrapper(path) is not None:
+            return False
+        calls = [c for c in F.exprs(b["thir"], "Call") if (c.get("fn") or "") == self.sub_fn["path"]]
+        if len(calls) != 1:
+            return False
+        v0 = F.leftmost_var(calls[0]["args"][0])
+        p0 = b["params"][0].get("pat", {})
+        if v0 is None or p0.get("k") != "Bind" or v0.get("id") != p0.get("id"):
+            return False
+        cache[path] = True
+        return True
+
+    def resolve(self, parent_prec, child_kind, outer, side):
+        """(outer precedence, side) at which a child of this kind is printed: constants, or read from a helper."""
+        if not isinstance(side, tuple):
+            return (parent_prec if outer == "self" else outer), side
+        _, path, consts = side
+        got = []
+
+        def capture(a):
+            got.append((a[1], a[2]))
+            return I.Enum("Result", "Ok", {"0": ()})
+        ip = I.Interp(self.facts, max_depth=4, extern={self.sub_fn["path"]: capture})
+        args = [kind_value(child_kind, self.facts)] + [parent_prec if c == "self" else c for c in consts]
+        ip.apply(self.facts.bodies[path], args)
+        if len(got) != 1 or not isinstance(got[0][0], int) or not isinstance(got[0][1], I.Enum):
+            raise I.Unknown("helper %s does not print its argument exactly once" % short(path))
+        return got[0][0], got[0][1].variant
+
     def _field_of(self, e, binds):
         """Which field of the matched Expression variant a child expression is ('2[]' = element of a list field)."""
         tr = TF.Tracer(self.facts, max_depth=1)
@@ -296,6 +345,23 @@ class Formatter:
                     # a helper that prints its argument through the sub-expression printer with a fixed outer precedence / side
                     out.append(("rec", self._field_of(args[0], binds), w[0], w[1]))
                     return
+                dw = self._dyn_wrapper(n.get("rfn") or fn)
+                if dw:
+                    # a helper that chooses the outer precedence / side from the child it is given: read per child kind
+                    consts = []
+                    for a_ in args[1:]:
+                        a_ = F.strip(a_)
+                        sd_ = F.adt_ctor(a_)
+                        if a_.get("k") == "Lit":
+                            consts.append(a_["v"])
+                        elif a_.get("k") == "Var" and a_.get("ty") == "u32":
+                            consts.append("self")
+                        elif sd_ and sd_[0] == "OperatorSide":
+                            consts.append(I.Enum("OperatorSide", sd_[1]))
+                        else:
+                            consts.append(I.Opaque("argument"))
+                    out.append(("rec", self._field_of(args[0], binds), "self" if "self" in consts else "dyn", ("dyn", n.get("rfn") or fn, tuple(consts))))
+                    return
                 if fn.endswith("String::push") or fn.endswith("String::push_str"):
                     l = F.lit(args[1])
                     out.append(("text", l[1] if l else None))
@@ -307,6 +373,11 @@ class Formatter:
                     out.append(("binop",))
                     return
                 if nm.startswith("format_") or nm.startswith("write"):
+                    cb = self.facts.bodies.get(n.get("rfn") or fn)
+                    if cb is not None and cb.get("params") and cb["params"][0].get("ty", "").endswith("ast_expressions::Expression") and self._reaches_sub(cb["path"]):
+                        # a helper that prints an expression child in a way this model cannot read: say so (C09.sides)
+                        out.append(("rec", self._field_of(args[0], binds), "?", "?"))
+                        return
                     out.append(("other", nm))
                     return
                 for a in args:
@@ -671,6 +742,7 @@ def run(chk):
 
     rule_total(chk, fm)
     rule_paren(chk, fm, px)
+    rule_contexts(chk, fm, px)
     rule_optext(chk, fm, px, lx)
     rule_adj(chk, fm, px, lx)
     rule_literals(chk, fm)
@@ -744,6 +816,7 @@ def rule_paren(chk, fm, px):
                     continue
                 plevels = pl if isinstance(pl, set) else {pl}
             o = pprec if outer == "self" else outer
+            side_label = side if not isinstance(side, tuple) else "chosen by %s" % short(side[1])
             groups = {}
             for child in fm.kinds:
                 cprec = fm.prec.get(child)
@@ -751,7 +824,8 @@ def rule_paren(chk, fm, px):
                 if cprec is None:
                     continue
                 try:
-                    paren = fm.needs_paren(child, o, side)
+                    o, side_c = fm.resolve(pprec, child, outer, side)
+                    paren = fm.needs_paren(child, o, side_c)
                 except I.Unknown as e:
                     chk.ob("C09.paren/%s.%s" % (kname(parent), field), False, "paren rule not readable: %s" % e, where(sub))
                     break
@@ -773,9 +847,144 @@ def rule_paren(chk, fm, px):
                        ("printed without parentheses and parsed at level<=%s" % ",".join(lv)) if not bad else
                        "child %s is printed without parentheses at position %s of %s (outer precedence %s, side %s) "
                        "but the parser parses that position at level %s < the child's level: the text re-groups or is rejected"
-                       % (", ".join(bad[:4]) + ("…" if len(bad) > 4 else ""), field, kname(parent), o, side, ",".join(lv)),
-                       where(sub), sample={"parent": kname(parent), "field": field, "outer": o, "side": side,
+                       % (", ".join(bad[:4]) + ("…" if len(bad) > 4 else ""), field, kname(parent), o, side_label, ",".join(lv)),
+                       where(sub), sample={"parent": kname(parent), "field": field, "outer": o, "side": side_label,
                                            "child_group": gk, "parser_levels": lv})
+
+
+# printer function -> parser functions that read the same expression (confirmed by reading both sides)
+CONTEXTS = {
+    "format_initializer_inner": ("initialiser", ["init_expr"]),
+    "format_attribute": ("attribute argument", ["parse_attribute_base"]),
+    "format_function_param": ("default argument", ["parse_function_param"]),
+    "format_declarator": ("array size", ["parse_arraydim"]),
+    "format_expression_or_type": ("template argument", ["parse_expression_or_type_with_or_without_symbols"]),
+    "format_enum": ("enum value", ["parse_enum_value"]),
+    "format_statement": ("statement", ["parse_statement_kind", "expr_statement"]),
+    "format_for_init": ("for-init", ["parse_init_statement"]),
+}
+
+
+def terminator_exclusions(px):
+    """Terminator variant -> operators the parser does not read while that terminator is in force (arms of the level
+    functions guarded by `st.terminator != Terminator::V`). None when a guard mentions the terminator in another form."""
+    excl = {}
+    for b in px.facts.crates[PAR]["bodies"]:
+        if "thir" not in b:
+            continue
+        for m in F.exprs(b["thir"], "Match"):
+            for arm in m.get("arms", []):
+                g = arm.get("guard")
+                if not g:
+                    continue
+                ctors = [F.adt_ctor(x) for x in F.walk(g) if isinstance(x, dict) and x.get("k") == "Adt"]
+                vs = [c[1] for c in ctors if c and c[0] == "Terminator"]
+                if not vs:
+                    continue
+                nes = [c for c in F.exprs(g, "Call") if short(c.get("fn") or "") == "ne" and any((F.adt_ctor(F.strip(a)) or ("",))[0] == "Terminator" for a in c.get("args", []))]
+                nes += [x for x in F.exprs(g, "Binary") if x.get("op") == "Ne" and any((F.adt_ctor(F.strip(a)) or ("",))[0] == "Terminator" for a in (x.get("l"), x.get("r")) if a)]
+                if len(nes) != len(vs):
+                    return None
+                ops = [c for c in (F.adt_ctor(x) for x in F.walk(arm["body"]) if isinstance(x, dict) and x.get("k") == "Adt") if c and c[0] == "BinOp"]
+                for v in vs:
+                    for o in ops:
+                        excl.setdefault(v, set()).add(o[1])
+    return excl
+
+
+def rule_contexts(chk, fm, px):
+    """Expressions printed outside an expression (initialisers, default arguments, attribute arguments, array sizes,
+    template arguments, enum values, statements): the parser reads each of these places under a terminator that
+    switches some operators off (a comma ends an initialiser; > ends a template argument list). Every node kind that
+    could show such an operator at its top level must come out of the printer in parentheses there."""
+    f = chk.facts
+    excl = terminator_exclusions(px)
+    if excl is None:
+        chk.unreadable("C09.context/terminators", "the Terminator guards of the parser's operator tables", "a guard that is not `terminator != Terminator::V`", PAR)
+        return
+
+    def wrapper_terminator(path, depth=0):
+        b = f.bodies.get(path)
+        if b is None or "thir" not in b or depth > 2:
+            return None
+        out = set()
+        for c in F.exprs(b["thir"], "Call"):
+            if c.get("fn") not in px.exprfns:
+                continue
+            t = [x[1] for x in (F.adt_ctor(F.strip(a)) for a in c.get("args", [])) if x and x[0] == "Terminator"]
+            if t:
+                out.add(t[0])
+            else:
+                w = wrapper_terminator(c["fn"], depth + 1)
+                if w:
+                    out |= w
+        return out or None
+    n_ctx = 0
+    for ffn, (what, pfns) in sorted(CONTEXTS.items()):
+        fb = f.fn(ffn, FMT)
+        pbs = [b for b in f.crates[PAR]["bodies"] if b["kind"] in ("Fn", "AssocFn") and b["name"] in pfns]
+        if not fb or not pbs:
+            continue        # (a renamed function: the floor below speaks up when too few places are paired)
+        terms = set()
+        for pb in pbs:
+            for b in px.family(pb["path"]):
+                if "thir" not in b:
+                    continue
+                for c in F.exprs(b["thir"], "Call"):
+                    if c.get("fn") in px.exprfns and c.get("fn") not in px.level:
+                        t = [x[1] for x in (F.adt_ctor(F.strip(a)) for a in c.get("args", [])) if x and x[0] == "Terminator"]
+                        terms |= set(t) if t else (wrapper_terminator(c["fn"]) or set())
+        sites = []
+        for c in F.exprs(fb["thir"], "Call"):
+            if c.get("fn") == fm.sub_fn["path"]:
+                try:
+                    outer = fm.ip.ev(c["args"][1], {}, 0)
+                except I.Unknown:
+                    outer = None
+                sd = F.adt_ctor(c["args"][2])
+                sites.append((c, outer, sd[1] if sd else None))
+            else:
+                w = fm._wrapper(c.get("fn") or "")
+                if w:
+                    sites.append((c, w[0], w[1]))
+        if not terms or not sites:
+            continue
+        n_ctx += 1
+        off = set()
+        for t in terms:
+            off |= excl.get(t, set())
+        offk = [k for k in fm.kinds if k[0] == "BinaryOperation" and kname(k).split("::")[-1] in off and fm.prec.get(k) is not None]
+        if off and not offk:
+            chk.unreadable("C09.context/" + ffn, "the operators switched off for a %s" % what, "none of %s is a printable node kind" % sorted(off), where(fb))
+            continue
+        minprec = min(fm.prec[k] for k in offk) if offk else None
+        bad = []
+        for c, outer, side in sites:
+            if not isinstance(outer, int) or side is None:
+                chk.unreadable("C09.context/" + ffn, "the level at which a %s is printed" % what, "outer precedence / side are not constants", where(fb, c))
+                bad = None
+                break
+            for k in fm.kinds:
+                if minprec is None or fm.prec.get(k) is None or fm.prec[k] < minprec:
+                    continue
+                try:
+                    if not fm.needs_paren(k, outer, side):
+                        bad.append(kname(k))
+                except I.Unknown as e:
+                    chk.unreadable("C09.context/" + ffn, "the parenthesis rule", str(e), where(fm.sub_fn))
+                    bad = None
+                    break
+            if bad is None:
+                break
+        if bad is None:
+            continue
+        bad = sorted(set(bad))
+        chk.ob("C09.context/" + ffn, not bad,
+               "a %s is read with terminator %s (%s switched off); %d print site(s) parenthesise every node kind that could show one of them" % (what, "/".join(sorted(terms)), ", ".join(sorted(off)) or "nothing", len(sites))
+               if not bad else "%s prints a %s without parentheses around %s, but the parser reads a %s with %s switched off (terminator %s): the text is read back as something else or rejected "
+               "(`int a = (x, y);` comes out as `int a = x, y;`)" % (ffn, what, ", ".join(bad[:4]) + ("…" if len(bad) > 4 else ""), what, ", ".join(sorted(off)), "/".join(sorted(terms))),
+               where(fb, sites[0][0]), sample={"printer": ffn, "parser": pfns, "terminators": sorted(terms), "off": sorted(off), "sites": len(sites)})
+    chk.floor("C09.floor/contexts", n_ctx, 7, "places outside an expression where printer and parser were paired")
 
 
 def sim_parse_op(px, toks):
